@@ -2342,6 +2342,21 @@ impl LlamaExecutor {
                         }
                         return Ok(decoded.len);
                     }
+                    // MVL moves I bytes (one per count) and leaves I = 0, like the other MVL forms.
+                    let mut src_addr = transfer.src_addr;
+                    let mut dst_addr = transfer.dst_addr;
+                    for _ in 0..length {
+                        let value = bus.load(src_addr, 8);
+                        Self::store_traced(bus, dst_addr, 8, value);
+                        src_addr = Self::advance_internal_addr_signed(src_addr, 1);
+                        dst_addr = Self::advance_internal_addr_signed(dst_addr, 1);
+                    }
+                    state.set_reg(RegName::I, 0);
+                    let start_pc = state.pc();
+                    if state.pc() == start_pc {
+                        state.set_pc(start_pc.wrapping_add(decoded.len as u32));
+                    }
+                    return Ok(decoded.len);
                 }
                 let value = bus.load(transfer.src_addr, transfer.bits);
                 Self::store_traced(bus, transfer.dst_addr, transfer.bits, value);
